@@ -596,3 +596,25 @@ def escapes(fn, start_bb, must_blocks, avoid=()):
     if start_bb in must:
         return None
     return flag_reach(fn, start_bb, return_blocks(fn), avoid=must | set(avoid))
+
+
+def escapes_without_edges(fn, start_bb, must_blocks, forbidden_edges=(), avoid=()):
+    """like `escapes`, but the search may not traverse the CFG edges in forbidden_edges (pairs (from_bb, to_bb)); used for
+    'every path passes S or takes edge E' obligations"""
+    must = set(must_blocks) | set(avoid)
+    forb = set(forbidden_edges)
+    if start_bb in must:
+        return None
+    rets = set(return_blocks(fn))
+    seen = {start_bb}
+    st = [(start_bb, [start_bb])]
+    while st:
+        b, path = st.pop()
+        if b in rets:
+            return path
+        for n in fn.succs(b):
+            if (b, n) in forb or n in must or n in seen or fn.blocks[n]["cleanup"]:
+                continue
+            seen.add(n)
+            st.append((n, path + [n]))
+    return None
